@@ -182,14 +182,16 @@ func (fs *FSResults) Spool(graph string, stream *Stream) (string, error) {
 		statusFile, err := os.Create(statusPath)
 		if err == nil {
 			defer statusFile.Close()
+			// the status file is written before anybody can see the job as
+			// COMPLETE: a job reported complete survives a restart
 			job.lock.Lock()
 			job.Status.State = gripql.JobState_COMPLETE
 			out, err := json.Marshal(job)
 			count := job.Status.Count
-			job.lock.Unlock()
 			if err == nil {
 				statusFile.Write([]byte(fmt.Sprintf("%s\n", out)))
 			}
+			job.lock.Unlock()
 			log.Printf("Job Done: %s (%d results)", jobName, count)
 		} else {
 			job.setState(gripql.JobState_ERROR)
